@@ -498,7 +498,7 @@ fn c04(a: &Args) -> Report {
             let mut s = SchedSpec::new(&format!("C04/sched/{mname}/{mode:?}"), mode, vec![Op::w(0, 1), Op::Rot, Op::w(1, 2)], clients);
             s.clock_choices = if *mname == "delete-closed" { 1 } else { 0 };
             s.bound = if thorough { 3 } else { 2 };
-            s.max_execs = if thorough { 60_000 } else { 6_000 };
+            s.max_execs = if thorough { 60_000 } else { 4_000 };
             s.lock_points = true;
             s.read_points = thorough;
             sspecs.push(s);
@@ -510,7 +510,7 @@ fn c04(a: &Args) -> Report {
             for mode in [IoMode::Inplace, IoMode::Background] {
                 let mut s = SchedSpec::new(&format!("C04/sched1/{dname}|{mname}/{mode:?}"), mode, vec![Op::w(0, 1), Op::Rot, Op::w(0, 2)], vec![vec![dop.clone()], vec![COp::M(mop)]]);
                 s.bound = if thorough { 3 } else { 2 };
-                s.max_execs = if thorough { 60_000 } else { 5_000 };
+                s.max_execs = if thorough { 60_000 } else { 3_500 };
                 sspecs.push(s);
             }
         }
@@ -1294,7 +1294,7 @@ fn granularities(specs: Vec<SchedSpec>, thorough: bool) -> Vec<SchedSpec> {
         let mut fine = s.clone();
         fine.name = format!("{}/fine", s.name);
         fine.bound = if thorough { 2 } else { 1 };
-        fine.max_execs = if thorough { 40_000 } else if small { 1_200 } else if special { 2_000 } else { 200 };
+        fine.max_execs = if thorough { 40_000 } else if small { 1_000 } else if special { 1_600 } else { 200 };
         if special {
             fine.bound += 1;
         }
@@ -1486,7 +1486,7 @@ fn c14(a: &Args) -> Report {
                 s.followup = vec![COp::R(0), COp::w(1, 50), COp::R(1), COp::M(Op::Rot), COp::w(0, 60), COp::R(0)];
                 s.cancel = Some(sched::Cancel { client: 0, op: 0, k: usize::MAX });
                 s.bound = if thorough { 3 } else { 2 };
-                s.max_execs = if thorough { 30_000 } else { 480 };
+                s.max_execs = if thorough { 30_000 } else { 400 };
                 bases.push(s);
             }
         }
@@ -1711,7 +1711,7 @@ fn fault_part(prop: &str, a: &Args, oracle: crate::engines::fault::FaultOracle) 
 
 fn c06(a: &Args) -> Report {
     let thorough = a.tier == "thorough";
-    crash_part("C06", a, crate::engines::crash::CrashOracle::Recovery, if thorough { 3 } else { 2 }, if thorough { 8192 } else { 700 }, if thorough { 40_000 } else { 1_500 })
+    crash_part("C06", a, crate::engines::crash::CrashOracle::Recovery, if thorough { 3 } else { 2 }, if thorough { 8192 } else { 700 }, if thorough { 40_000 } else { 1_200 })
 }
 
 fn crash_part(prop: &str, a: &Args, oracle: crate::engines::crash::CrashOracle, hist_len: usize, fine_limit: usize, max_states: usize) -> Report {
